@@ -133,13 +133,26 @@ def forward_parts(ctx, c, scr, scc):
     detail = cmp_complex_real("probed source term jE", jEc, jE) or cmp_complex_real("probed source term jH", jHc, jH)
     inv_mu = np.asarray(scr.arrays.inv_permeabilities, dtype=np.float64)
     # property on forward(): with active boundaries, 2 steps
-    r2 = L._fwd(scr, objs_r, Y.with_state(scr, E0, H0, inv_eps=inv_eps, sig_e=sig_e), t, min(2, c["steps"] - t), sim=True)
-    c2 = L._fwd(scc, objs_c, Y.with_state(scc, E0, H0, inv_eps=inv_eps, sig_e=sig_e), t, min(2, c["steps"] - t), sim=True)
+    # with random REAL psi arrays in every PML (embedded in the complex placement): fields and psi stay real
+    from . import cpml_api as P
+    jnp = Y.J()["jnp"]
+    qE, qH = P.random_psi(scr, r)
+    names = {pr.name: pc.name for pr, pc in zip(P.pml_list(scr), P.pml_list(scc))}     # same layers, placement-specific names
+    cq = lambda q: {names[k]: tuple(jnp.asarray(np.asarray(x), dtype=jnp.complex128) for x in v) for k, v in q.items()}
+    nst = min(2, c["steps"] - t)
+    r2 = L._fwd_full(scr, objs_r, P.with_psi(Y.with_state(scr, E0, H0, inv_eps=inv_eps, sig_e=sig_e), qE, qH), t, nst, sim=True)
+    c2 = L._fwd_full(scc, objs_c, P.with_psi(Y.with_state(scc, E0, H0, inv_eps=inv_eps, sig_e=sig_e), cq(qE), cq(qH)), t, nst, sim=True)
     detail = detail or cmp_complex_real("forward() x2 E", c2[0], r2[0]) or cmp_complex_real("forward() x2 H", c2[1], r2[1])
+    for k, nm in ((2, "psi_E"), (3, "psi_H")):
+        for name in r2[k]:
+            for idx in (0, 1):
+                detail = detail or cmp_complex_real(f"forward() x2 {nm}[{name}][{idx}]", c2[k][names[name]][idx], r2[k][name][idx])
     if any(s["kind"] == "hard" for s in c["sources"]) or c.get("dispersive"):
         # a hard source overwrites fields (not an additive term); a dispersive block has ADE polarisation the Yee model
         # does not have: no model comparison for these scenes
         return detail
+    # real placement with ACTIVE PML and non-zero psi vs the CPML model (Cpml.forwardP, op pmlfwd)
+    L.pml_model_part(ctx, c, scr, dict(t=t, inv_eps=inv_eps, sig_e=sig_e, am=(None, None, c["amp"]), s3=(E0, H0), q3=(qE, qH)))
     # real placement vs real model
     rE, rH = L._fwd(scr, objs_r, Y.with_state(scr, E0, H0, inv_eps=inv_eps, sig_e=sig_e), t, 1, sim=False)
     mE, mH = Y.decode_fields(ctx.driver.ask(Y.request(scr, "fwd", E0, H0, inv_eps, inv_mu, sig_e, None, (jE, jH), 1)), c["shape"])
